@@ -72,10 +72,14 @@ def render_pmodule(root: Path, tasks: list[dict], version: int) -> str:
         "import pytask", "from pathlib import Path", "from typing import Annotated",
         "from pytask import DirectoryNode, Product, task", "import verif_rt", "",
         f"ROOT = Path({str(root)!r})", f"VERSION = {version}", "",
-        "def _child(_k, _f):",
+        "def _child(_k, _f, _two=False):",
         "    @task(name=f'task_t{20000 + _k}_')",
         "    def _(src: Path = _f, dst: Annotated[Path, Product] = ROOT / f'f{30000 + _k}.txt'):",
         "        verif_rt.body(ROOT, 20000 + _k, VERSION, [src], {30000 + _k: dst})",
+        "    if _two:",
+        "        @task(name=f'task_t{40000 + _k}_')",
+        "        def _(src: Path = ROOT / f'f{30000 + _k}.txt', dst: Annotated[Path, Product] = ROOT / f'f{50000 + _k}.txt'):",
+        "            verif_rt.body(ROOT, 40000 + _k, VERSION, [src], {50000 + _k: dst})",
         "",
     ]
     for t in tasks:
@@ -89,12 +93,15 @@ def render_pmodule(root: Path, tasks: list[dict], version: int) -> str:
             decos.append("@task(is_generator=True)")
         args = []
         pat_args = []
+        def _rd(p):
+            return {"abs": f"ROOT / 'pat{p}'", "rel": f"Path('pat{p}')", "rel_updown": f"Path('sub/../pat{p}')",
+                    "abs_updown": f"ROOT / 'sub' / '..' / 'pat{p}'"}[(t.get("pspell") or {}).get(str(p), "abs")]
         for j, p in enumerate(t.get("pdeps", [])):
-            args.append(f"pf{j}: Annotated[list[Path], DirectoryNode(root_dir=ROOT / 'pat{p}', pattern='*.in')]")
+            args.append(f"pf{j}: Annotated[list[Path], DirectoryNode(root_dir={_rd(p)}, pattern='*.in')]")
             pat_args.append(f"pf{j}")
         pdir = "None"
         for j, p in enumerate(t.get("pprods", [])):
-            args.append(f"pd{j}: Annotated[Path, DirectoryNode(root_dir=ROOT / 'pat{p}', pattern='*.in'), Product]")
+            args.append(f"pd{j}: Annotated[Path, DirectoryNode(root_dir={_rd(p)}, pattern='*.in'), Product]")
             pdir = f"pd{j}"
         args += [f"d{j}: Path = ROOT / 'f{d}.txt'" for j, d in enumerate(t["deps"])]
         args += [f"p{j}: Annotated[Path, Product] = ROOT / 'f{p}.txt'" for j, p in enumerate(t["prods"])]
@@ -107,7 +114,7 @@ def render_pmodule(root: Path, tasks: list[dict], version: int) -> str:
             lines += [
                 f"    verif_rt.gen_begin(ROOT, {i})",
                 f"    for _f in sorted({fl}, key=verif_rt._nid):",
-                "        _child(verif_rt._nid(_f) - 10000, _f)",
+                f"        _child(verif_rt._nid(_f) - 10000, _f, {bool(t.get('two_stage'))})",
                 f"    verif_rt.gen_log(ROOT, {i}, 'F')",
             ]
         else:
